@@ -180,3 +180,6 @@ package pair
 //@   requires c != nil && c.database != nil && cont != nil
 //@   modifies dbver(c.database), lastname(c.database), lastkey(c.database), dbhas, dbkey
 //@   ensures err == nil ==> out != nil
+
+//@ func NewPairingController(database) (c)
+//@   ensures fresh(c) && c.database == database
